@@ -749,6 +749,13 @@ impl<S: BitmapSlice + Send + Sync> FileSystem for PassthroughFs<S> {
             // File exists, and args.flags doesn't contain O_EXCL. Now let's open it with
             // open_inode().
             None => {
+                if is_dir(entry.attr.st_mode) {
+                    // open(2) with O_CREAT never opens a directory. Drop the reference taken
+                    // by do_lookup(), the entry is not handed to the client.
+                    let mut inodes = self.inode_map.get_map_mut();
+                    self.forget_one(&mut inodes, entry.inode, 1);
+                    return Err(io::Error::from_raw_os_error(libc::EISDIR));
+                }
                 // Cap restored when _killpriv is dropped
                 let _killpriv = if self.killpriv_v2.load(Ordering::Relaxed)
                     && (args.fuse_flags & FOPEN_IN_KILL_SUIDGID != 0)
